@@ -7,6 +7,18 @@ props = [json.loads(l) for l in open(os.path.join(V, 'properties.jsonl'))]
 TRUST = "Trusted: go/types and go/ssa (x/tools v0.29.0) as a faithful view of /repo's working tree; anchor names (functions, fields) listed in the rule files; std library contracts; reviewed tables rules/exceptions.json. Loops are abstracted to 0/1 iterations in decision-list rules."
 
 CLAIMS = {
+ "C14": dict(
+   technique="static decision-list extraction + guard-cut/ordering rules on SSA (accessor order, OpenGraph gate, first-non-empty getters, opt-out dominance, field/getter agreement)",
+   text="Decides the combinator skeleton of the metadata precedence for all inputs: accessor list order [OpenGraph only if complete, schema.org, IE], each getter returns the first non-empty answer of the same-named accessor method, opt-out yields the zero record, and each record field is filled from the same-named source. Not decided: what each of the three parsers extracts from a document.",
+   design="4/C14"),
+ "C19": dict(
+   technique="decision-list conformance of HasRootDomain + guard-cut dominance of every webdoc.Embed construction by the host test + constant allow-list extraction + converter switch table",
+   text="Decides that an embed placeholder can only be constructed on paths where the parsed host of the tested URL equals an allow-listed root or ends with '.'+root, that the roots are exactly the four documented ones paired with the right service name, that the id is computed from the tested URL, that the placeholder is rendered through the DOM serializer, and that unrecognised iframe/object/embed elements fall into a dropping clause. Not decided: id/params parsing.",
+   design="4/C19"),
+ "C20": dict(
+   technique="decision-list conformance of ExtractContent with path-resolved phis; structural checks of the per-pass construction; guard-cut of the flag-dependent skips in the converter; global-reader scan",
+   text="Decides the two-pass skeleton: pruning pass first, second pass with Default iff the first yields <= 499 words, document and count from the same pass; each pass uses fresh builder/converter over a deep clone; the flag-dependent skips are guarded by the complete documented exemptions and the patterns are used nowhere else. Not decided: the metamorphic equalities themselves.",
+   design="4/C20"),
  "C18": dict(
    technique="static decision-list extraction from SSA (normalised branch paths) compared with the documented cascade; literal-table key sets; guard-cut reachability",
    text="Decides, for every path through Classifier.Classify / getDirectDescendants and the converter's table case, that the branch structure equals the documented ordered cascade (order, thresholds, operands, tables, outcomes). Holds for all inputs because it is a statement about the code's decision structure, not about sampled tables. Not decided: row/column counting arithmetic and text validity helpers.",
